@@ -17,8 +17,8 @@
   `parse_never_panics` (every request), `stringsN_refuses_iff`, `negative_numkeys_is_refused`;
   `grammars_with_stringsN` records where `StringsN` occurs.
   Known deviations of the real code, reproduced by the model, and how they show up here:
-    D13  `parser.Enum` and the CONFIG sub-command compare exactly → `enum_is_case_sensitive`,
-         `grammars_with_enum`, `config_subcommand_is_case_sensitive`
+    D13  (repaired) `parser.Enum` and the CONFIG sub-command fold case → `enum_case_insensitive`,
+         `enum_folds_case`, `grammars_with_enum`, `config_subcommand_folds_case`
     D20  `SET k v EX 0` is accepted as "no expiry" → `set_ex_zero_accepted`
   Only property theorems and non-vacuity examples live here; the lemmas are in
   `RedkaModel/Proofs/WireParser.lean`, `WireTable.lean`, `WirePanic.lean`, `WireReply.lean`,
@@ -133,11 +133,22 @@ theorem command_name_case_insensitive :
     ∀ (a a' : Bytes), CaseVariant a a' → ∀ rest : List Bytes, parse (a' :: rest) = parse (a :: rest) :=
   parse_name_caseVariant
 
-/-- D13 witness: `parser.Enum` rejects `BEFORE` and accepts `before`. -/
-theorem enum_is_case_sensitive :
-    isFail .syntaxError (runP (.enum "where" ["before", "after"]) [asciiBytes "BEFORE"] []) = true ∧
-    isFail .syntaxError (runP (.enum "where" ["before", "after"]) [asciiBytes "before"] []) = false :=
-  WireProofs.enum_is_case_sensitive
+/-- D13 (repaired in the Go tree): `parser.Enum` folds case and keeps the lowered value — `BEFORE`,
+`Before` and `before` all select `before`; a value outside the list is a syntax error. -/
+theorem enum_folds_case :
+    storedBytes "where" (runP (.enum "where" ["before", "after"]) [asciiBytes "BEFORE"] []) = some (asciiBytes "before") ∧
+    storedBytes "where" (runP (.enum "where" ["before", "after"]) [asciiBytes "Before"] []) = some (asciiBytes "before") ∧
+    storedBytes "where" (runP (.enum "where" ["before", "after"]) [asciiBytes "before"] []) = some (asciiBytes "before") ∧
+    isFail .syntaxError (runP (.enum "where" ["before", "after"]) [asciiBytes "BEFOR"] []) = true :=
+  WireProofs.enum_folds_case
+
+/-- **`Enum` values are recognised regardless of letter case**, for every list of allowed values and every
+ASCII argument: the argument and its upper/lower-case variants run identically. -/
+theorem enum_case_insensitive : ∀ (slot : String) (allowed : List String) (a a' : Bytes) (rest : List Bytes) (env : Env),
+    a.all (· < 128) = true → a'.all (· < 128) = true → a.map lowerAscii = a'.map lowerAscii →
+    runP (.enum slot allowed) (a :: rest) env = runP (.enum slot allowed) (a' :: rest) env := by
+  intro slot allowed a a' rest env ha ha' h
+  simp only [runP, enumLower, ha, ha', if_true, h]
 
 /-- D13: the generated grammars that contain `Enum` (SCAN TYPE, LINSERT BEFORE|AFTER, AGGREGATE). -/
 theorem grammars_with_enum :
@@ -246,7 +257,7 @@ theorem options_any_order_grammar :
 
 /-- Which combinators consume which groups: a `Flag` its keyword; a `Named` with positional body its
 keyword and one value per body parser (whatever the values spell); a `Named` with an `Enum` body its
-keyword and an allowed value; a `OneOf` what one alternative consumes. These cover every option of
+keyword and an allowed value in any letter case (the slot receives the lowered value); a `OneOf` what one alternative consumes. These cover every option of
 every generated grammar. -/
 theorem option_groups :
     (∀ (name slot : String) (kw : Bytes), equalFold kw (asciiBytes name) = true →
@@ -256,9 +267,10 @@ theorem option_groups :
       ∀ (vals : List Bytes), vals.length = body.length →
       ∀ (U : Env → Env), (∀ env, bindPos body vals env = .ok (U env)) →
         Consumes (.named name body) (kw :: vals) U) ∧
-    (∀ (name slot : String) (allowed : List String) (kw v : Bytes),
-      equalFold kw (asciiBytes name) = true → allowed.any (fun s => asciiBytes s == v) = true →
-        Consumes (.named name [.enum slot allowed]) [kw, v] (fun e => setSlot e slot (.bytes v))) ∧
+    (∀ (name slot : String) (allowed : List String) (kw v l : Bytes),
+      equalFold kw (asciiBytes name) = true → enumLower allowed v = some l →
+      allowed.any (fun s => asciiBytes s == l) = true →
+        Consumes (.named name [.enum slot allowed]) [kw, v] (fun e => setSlot e slot (.bytes l))) ∧
     (∀ (A : List P) (p : P) (B : List P), kwGuardedL (A ++ B) = true →
       ∀ (a : Bytes) (v : List Bytes) (U : Env → Env), Consumes p (a :: v) U →
         (∀ q ∈ A ++ B, kwMatch q a = false) → Consumes (.oneOf (A ++ p :: B)) (a :: v) U) :=
@@ -327,12 +339,15 @@ example (rest : List Bytes) : parse (b "sEt" :: rest) = parse (b "SET" :: rest) 
   command_name_case_insensitive _ _ (by decide +kernel) rest
 
 /-- D13 at the level of `command.Parse` -/
-example : errOf (parse [b "LINSERT", b "k", b "BEFORE", b "p", b "e"]) = some .syntaxError := by decide +kernel
+example : cmdOf (parse [b "LINSERT", b "k", b "BEFORE", b "p", b "e"])
+    = some (.linsert (b "k") (b "before") (b "p") (b "e")) := by decide +kernel
 example : cmdOf (parse [b "LINSERT", b "k", b "before", b "p", b "e"])
     = some (.linsert (b "k") (b "before") (b "p") (b "e")) := by decide +kernel
-theorem config_subcommand_is_case_sensitive :
-    errOf (parse [b "CONFIG", b "GET", b "x"]) = some .unknownSubcmd ∧
-    cmdOf (parse [b "CONFIG", b "get", b "x"]) = some (.config (b "get") [b "x"]) := by decide +kernel
+example : errOf (parse [b "LINSERT", b "k", b "BEFOR", b "p", b "e"]) = some .syntaxError := by decide +kernel
+theorem config_subcommand_folds_case :
+    cmdOf (parse [b "CONFIG", b "GET", b "x"]) = some (.config (b "get") [b "x"]) ∧
+    cmdOf (parse [b "CONFIG", b "get", b "x"]) = some (.config (b "get") [b "x"]) ∧
+    errOf (parse [b "CONFIG", b "SET", b "x", b "y"]) = some .unknownSubcmd := by decide +kernel
 
 /-- D20: `SET k v EX 0` and `EX -1` are accepted and mean "no expiry" -/
 theorem set_ex_zero_accepted :
